@@ -25,11 +25,13 @@ import (
 )
 
 type c16cfg struct {
-	name   string
-	events []string // alphabet
-	depth  [2]int   // history length quick/thorough
-	burst  bool     // each step is a burst of two events with a gap, optionally with a slow system.peers read
-	t      [2]int   // schedule/timer deviations on top (total)
+	name     string
+	events   []string        // alphabet
+	depth    [2]int          // history length quick/thorough
+	distinct bool            // nodes have a node-to-node (peer/broadcast) address different from their rpc address
+	burst    bool            // each step is a burst of two events with a gap, optionally with a slow system.peers read
+	gaps     []time.Duration // burst gaps (default 0, 1.2s, 2.1s; nil also enumerates a slow system.peers read)
+	t        [2]int          // schedule/timer deviations on top (total)
 }
 
 type recPolicy16 struct {
@@ -61,6 +63,14 @@ var (
 	hX  = vhost{id: hostUUID(5), ip: "10.0.0.5", dc: "dc1", rack: "r1", noTok: true}              // invalid peer row
 	hE  = vhost{id: hostUUID(6), ip: "10.0.0.4", dc: "dc1", rack: "r2", tokens: []string{"6000"}} // another joining node
 )
+
+// withPeer gives a host a node-to-node address distinct from its rpc address.
+func withPeer(h vhost, distinct bool) vhost {
+	if distinct {
+		h.peerIP = strings.Replace(h.ip, "10.0.0.", "10.1.0.", 1)
+	}
+	return h
+}
 
 func has(v *cview, id, ip string) bool {
 	for _, h := range v.hosts {
@@ -98,11 +108,71 @@ func ipBytes(ip string) []byte {
 	return []byte{a, b, c, d}
 }
 
+// debouncerBody: the event debouncer must hand every frame it was given to the dispatch callback exactly
+// once and in order, whatever the interleaving of arrivals with the flush (all interleavings, P unbounded).
+func debouncerBody() {
+	gocql.VerifResetGlobals()
+	var got []string
+	d := gocql.VerifNewEventDebouncer(func(tags []string) {
+		got = append(got, tags...)
+	})
+	done := make(chan struct{}, 2)
+	vs.GoNamed("arrivals-1", func() {
+		d.Debounce("e1")
+		vs.Sleep(time.Second) // the debounce period: e2 arrives at the instant the first batch is flushed
+		d.Debounce("e2")
+		vs.Send(done, struct{}{})
+	})
+	vs.GoNamed("arrivals-2", func() {
+		vs.Sleep(time.Second)
+		d.Debounce("e3")
+		vs.Sleep(2500 * time.Millisecond)
+		d.Debounce("e4")
+		vs.Send(done, struct{}{})
+	})
+	vs.Recv[struct{}](done)
+	vs.Recv[struct{}](done)
+	vs.Settle(3 * time.Second)
+	d.Stop()
+	want := map[string]int{"e1": 1, "e2": 1, "e3": 1, "e4": 1}
+	seen := map[string]int{}
+	for _, t := range got {
+		seen[t]++
+	}
+	for t, n := range want {
+		if seen[t] != n {
+			vs.Failf("c16:event-debouncer:frame-lost-or-duplicated", "frame %s was dispatched %d times (dispatched in all: %v)", t, seen[t], got)
+		}
+	}
+	for t := range seen {
+		if want[t] == 0 {
+			vs.Failf("c16:event-debouncer:unknown-frame-dispatched", "dispatched %v", got)
+		}
+	}
+	pos := map[string]int{}
+	for i, t := range got {
+		pos[t] = i
+	}
+	if seen["e1"] == 1 && seen["e2"] == 1 && pos["e1"] > pos["e2"] {
+		vs.Failf("c16:event-debouncer:frames-reordered", "e2 (debounced 1s after e1 by the same goroutine) was dispatched before e1: %v", got)
+	}
+	vs.Observe("%v", got)
+}
+
 func (c *c16cfg) body(depth int) {
+	if c.name == "event-debouncer-delivers-every-frame" {
+		debouncerBody()
+		return
+	}
 	gocql.VerifResetGlobals()
 	vatomic.Yield = false
 	cl := newCluster(true)
 	view := &cview{hosts: []vhost{hA, hB}}
+	if c.distinct {
+		for i := range view.hosts {
+			view.hosts[i].peerIP = strings.Replace(view.hosts[i].ip, "10.0.0.", "10.1.0.", 1)
+		}
+	}
 	var peersLog, localLog []string
 	failNext := false
 	var peersDelay time.Duration
@@ -274,7 +344,7 @@ func (c *c16cfg) body(depth int) {
 				applied = false
 				break
 			}
-			view.hosts = append(view.hosts, hC)
+			view.hosts = append(view.hosts, withPeer(hC, c.distinct))
 			pushTopo("NEW_NODE", hC.ip)
 		case "remove-B":
 			if !has(view, hB.id, hB.ip) {
@@ -289,7 +359,7 @@ func (c *c16cfg) body(depth int) {
 				break
 			}
 			without(view, hB.id)
-			view.hosts = append(view.hosts, hB4)
+			view.hosts = append(view.hosts, withPeer(hB4, c.distinct))
 			pushTopo("NEW_NODE", hB4.ip)
 		case "replace-B-by-D":
 			if !has(view, hB.id, hB.ip) {
@@ -297,21 +367,21 @@ func (c *c16cfg) body(depth int) {
 				break
 			}
 			without(view, hB.id)
-			view.hosts = append(view.hosts, hD)
+			view.hosts = append(view.hosts, withPeer(hD, c.distinct))
 			pushTopo("NEW_NODE", hD.ip)
 		case "invalid-peer":
 			if has(view, hX.id, hX.ip) {
 				applied = false
 				break
 			}
-			view.hosts = append(view.hosts, hX)
+			view.hosts = append(view.hosts, withPeer(hX, c.distinct))
 			pushTopo("NEW_NODE", hX.ip)
 		case "duplicate-row":
 			if !has(view, hB.id, hB.ip) {
 				applied = false
 				break
 			}
-			view.hosts = append(view.hosts, hB)
+			view.hosts = append(view.hosts, withPeer(hB, c.distinct))
 			pushTopo("NEW_NODE", hB.ip)
 		case "down-B":
 			pushStatus("DOWN", hB.ip)
@@ -324,7 +394,7 @@ func (c *c16cfg) body(depth int) {
 				applied = false
 				break
 			}
-			view.hosts = append(view.hosts, hE)
+			view.hosts = append(view.hosts, withPeer(hE, c.distinct))
 			pushTopo("NEW_NODE", hE.ip)
 		case "down-unknown":
 			pushStatus("DOWN", "10.0.0.9")
@@ -372,8 +442,15 @@ func (c *c16cfg) body(depth int) {
 		applied := apply(ev)
 		if c.burst {
 			// a second event follows after a gap, possibly while the refresh caused by the first is in flight
-			gap := []time.Duration{0, 1200 * time.Millisecond, 2100 * time.Millisecond}[vs.Choose(3, vs.Free)]
-			peersDelay = []time.Duration{0, 1500 * time.Millisecond}[vs.Choose(2, vs.Free)]
+			gaps := c.gaps
+			if gaps == nil {
+				gaps = []time.Duration{0, 1200 * time.Millisecond, 2100 * time.Millisecond}
+			}
+			gap := gaps[vs.Choose(len(gaps), vs.Free)]
+			peersDelay = 0
+			if c.gaps == nil {
+				peersDelay = []time.Duration{0, 1500 * time.Millisecond}[vs.Choose(2, vs.Free)]
+			}
 			ev2 := c.events[vs.Choose(len(c.events), vs.Free)]
 			if gap > 0 {
 				vs.Sleep(gap)
@@ -440,6 +517,12 @@ func (c *c16cfg) body(depth int) {
 				}
 			}
 		} else if refreshed {
+			// a host re-reported under a new address is removed and added afresh (and connected): no longer down
+			for id, ip := range validOf(view) {
+				if old, ok := known[id]; ok && old != ip {
+					delete(down, id)
+				}
+			}
 			known = validOf(view)
 			for id := range down {
 				if _, still := known[id]; !still {
@@ -475,7 +558,7 @@ func (c *c16cfg) body(depth int) {
 
 func (c *c16cfg) build(tier int) func() *vs.Scenario {
 	return func() *vs.Scenario {
-		return &vs.Scenario{Name: fmt.Sprintf("%s-depth%d", c.name, c.depth[tier]), Cfg: vs.Config{MaxSteps: 400000, Horizon: 120 * time.Second, DelayBounded: true}, Body: func() { c.body(c.depth[tier]) }}
+		return &vs.Scenario{Name: fmt.Sprintf("%s-depth%d", c.name, c.depth[tier]), Cfg: vs.Config{MaxSteps: 400000, Horizon: 120 * time.Second, DelayBounded: c.name != "event-debouncer-delivers-every-frame"}, Body: func() { c.body(c.depth[tier]) }}
 	}
 }
 
@@ -487,7 +570,11 @@ func main() {
 		{name: "topology-histories", events: topo, depth: [2]int{4, 5}, t: [2]int{0, 0}},
 		{name: "status-histories", events: status, depth: [2]int{4, 5}, t: [2]int{0, 0}},
 		{name: "fault-histories", events: faults, depth: [2]int{4, 5}, t: [2]int{0, 0}},
+		{name: "distinct-rpc-and-peer-addresses", events: []string{"down-B", "up-B", "remove-B", "add-C", "move-B", "replace-B-by-D", "query"}, distinct: true, depth: [2]int{3, 4}, t: [2]int{0, 0}},
 		{name: "bursts-with-slow-refresh", events: []string{"add-C", "add-E", "remove-B", "down-B", "up-B"}, burst: true, depth: [2]int{1, 2}, t: [2]int{0, 0}},
+		// the second event arrives at the very instant the first one's debounce period ends (the batch is being dispatched)
+		{name: "bursts-at-the-debounce-instant-wide", events: []string{"down-B", "up-B", "add-C", "remove-B"}, burst: true, gaps: []time.Duration{time.Second, 2 * time.Second}, depth: [2]int{1, 1}, t: [2]int{1, 2}},
+		{name: "event-debouncer-delivers-every-frame", depth: [2]int{0, 0}, t: [2]int{-1, -1}},
 		{name: "topology-with-schedule-deviation", events: []string{"replace-B-by-D", "move-B", "remove-B", "query"}, depth: [2]int{2, 2}, t: [2]int{1, 2}},
 	}
 	tier := 0 // the history depth depends on the tier; shard children inherit VERIF_TIER from bin/check
@@ -497,7 +584,12 @@ func main() {
 	var defs []mcreport.Def
 	for _, c := range cfgs {
 		c := c
-		b := func(t int) vs.Bounds { return vs.Bounds{P: t, D: t, F: t, T: t} }
+		b := func(t int) vs.Bounds {
+			if t < 0 {
+				return vs.Bounds{P: 4, D: 2, F: 0} // the tiny debouncer scenario: preemption-bounded, generous
+			}
+			return vs.Bounds{P: t, D: t, F: t, T: t}
+		}
 		defs = append(defs, mcreport.Def{Name: fmt.Sprintf("%s-depth%d", c.name, c.depth[tier]), Build: c.build(tier), Quick: b(c.t[0]), Thorough: b(c.t[1])})
 	}
 	mcreport.Main("C16", "model_checking",
